@@ -310,6 +310,21 @@ def work(item):
                 if e is not None and aw is not None:
                     eb = (e[0] * aw / env.avog,) + tuple(e[1:])
                 judge(st, env, "CSb_FluorLine", z, m, E, eb, name, tol)
+    # the same energy for one element after the other (shuffled), each time right after a call of that element which fails inside the photo table
+    # (far above the tabulated range): a remembered (element, energy) pair of an earlier call must not leak into the next
+    rngp = random.Random(mix(seed, "c09-shared", tuple(zs)))
+    order = [z for z in zs if 1 <= z <= env.h.val["ZMAX"]]
+    for E in (2.5, 12.0, 40.0, 130.0, 10.0 ** rngp.uniform(0, 2.3)):
+        rngp.shuffle(order)
+        cache = {}
+        for z in order:
+            env.L.call("CS_FluorLine", z, lines["KL3"], 5000.0 if rngp.random() < 0.7 else 1e-3)
+            for sv, sname in ((0, "K"), (1, "L1"), (2, "L2"), (3, "L3")):
+                judge(st, env, "CS_FluorShell", z, sv, E, expect_shell(env, z, sname, E, cache), sname)
+            for nm in ("KL3", "L3M5", "L2M4", "L1M3"):
+                if nm in lines:
+                    judge(st, env, "CS_FluorLine", z, lines[nm], E, expect_line(env, z, nm, E, cache), nm)
+            st.cls("shared_energy_pass")
     return st
 
 
